@@ -235,13 +235,16 @@ def output_refs(xform: str, rootname: str) -> list:
         if ctx is None or not text:
             return
         for m in tok.finditer(text):
-            pe = abstract.parse_ref_output(m.group(1), rootname)
+            pe = abstract.parse_ref_output(m.group(0), rootname)       # (with its current()/ anchor, if any)
             if pe is not None:
                 # inside the argument list of indexed-repeat() paths are absolute by design
                 before = text[:m.start()]
                 k = before.rfind("indexed-repeat(")
                 in_ir = k >= 0 and before[k:].count("(") > before[k:].count(")")
-                out.append({"ctx": ctx, "e": pe, "where": where, "in_ir": in_ir})
+                # inside the predicate of a secondary-instance expression: instance('x')/root/item[ ... here ... ]
+                k2 = before.rfind("instance(")
+                in_pred = k2 >= 0 and before[k2:].count("[") > before[k2:].count("]")
+                out.append({"ctx": ctx, "e": pe, "where": where, "in_ir": in_ir, "in_pred": in_pred})
 
     for b in project.binds(root):
         ctx = below(b["nodeset"])
